@@ -100,7 +100,7 @@ StdApply(st0, g, op, a, b) ==
                                    !.strong[a] = 0, !.alive[a] = FALSE]
               IN [WeakDrop1(s1, a) EXCEPT !.ret = "moved"]
          ELSE [st EXCEPT !.ret = "unique"]
-    [] op \in {"IntoRaw", "FromRaw"} -> [st EXCEPT !.ret = "ok"]
+    [] op \in {"IntoRaw", "FromRaw", "WeakIntoRaw", "WeakFromRaw"} -> [st EXCEPT !.ret = "ok"]
     [] op = "IncStrong" -> [st EXCEPT !.strong[a] = @ + 1, !.ret = "ok"]
     [] op = "DecStrong" -> [StrongDrop(st, g, a) EXCEPT !.ret = "unit"]
     [] op = "DropDetached" ->
